@@ -66,7 +66,12 @@ type Run struct {
 }
 
 func newRun(p *Prog, prop, tier string) *Run {
-	return &Run{P: p, Prop: prop, Tier: tier, Res: &PropResult{Prop: prop, Config: p.Cfg.String()}, fset: map[string]bool{}}
+	r := &Run{P: p, Prop: prop, Tier: tier, Res: &PropResult{Prop: prop, Config: p.Cfg.String()}, fset: map[string]bool{}}
+	if p.InlineInfo != nil {
+		b, _ := json.Marshal(p.InlineInfo)
+		r.Assume("helper normalisation (inline.go): the program was analysed with new unexported helpers inlined at their call sites: " + string(b))
+	}
+	return r
 }
 
 // Analysed records that a function was analysed.
